@@ -167,8 +167,12 @@ inductive V where
   | stack (l : List V)
   deriving Repr, Inhabited
 
+/-- int.rs `hash`: the value itself when it fits `u64`, else `first_u64_digit()` — for a small
+(i64) negative number its two's complement, for a big number the lowest 64 bits of the magnitude -/
 def intHash (i : Int) : Int :=
-  if 0 ≤ i ∧ i < (U64 : Int) then i else (i.natAbs % U64 : Nat)
+  if 0 ≤ i ∧ i < (U64 : Int) then i
+  else if -9223372036854775808 ≤ i ∧ i < 0 then i % (U64 : Int)
+  else (i.natAbs % U64 : Nat)
 
 def sign (i : Int) : Int := if i < 0 then -1 else if i > 0 then 1 else 0
 
